@@ -205,9 +205,10 @@ Section FrontNP.
   Proof.
     unfold lookup_converter_func.
     destruct (lookup_type d name) as [|[sg ex pk fn| | |]]; try apply np_errorf; try apply np_unsup.
+    destruct (negb ex && negb (str_eqb pk (d_pkg_path d))); [apply np_errorf|].
     destruct (sg_ptys sg) as [|a [|a' pl]]; destruct (sg_rtys sg) as [|r [|e [|x rl]]];
       cbn [List.length Nat.eqb Nat.ltb Nat.leb negb orb]; try apply np_errorf; try apply np_ret.
-    destruct (is_error_type _ _); [apply np_ret|apply np_errorf].
+    destruct (is_error_type (d_env d) e); [apply np_ret|apply np_errorf].
   Qed.
 
   Lemma lookup_manipulator_func_np name on pos : np (lookup_manipulator_func d name on pos).
